@@ -8,6 +8,7 @@ mod util;
 
 mod c06;
 mod c10;
+mod c13;
 mod c14;
 
 type CheckFn = fn(&Ctx);
@@ -24,6 +25,7 @@ fn checks() -> Vec<Check> {
     vec![
         Check { id: "C06", level: "model_checking", run: c06::run, replay: Some(c06::replay) },
         Check { id: "C10", level: "model_checking", run: c10::run, replay: Some(c10::replay) },
+        Check { id: "C13", level: "model_checking", run: c13::run, replay: Some(c13::replay) },
         Check { id: "C14", level: "model_checking", run: c14::run, replay: Some(c14::replay) },
     ]
 }
